@@ -3,6 +3,8 @@ Per-property configuration of ./check: which generator profiles to run at which 
 what makes a history non-trivial for the property, assumptions recorded in the evidence.
 gen entries: (kind, profile, cases, maxlen, repetitions with different seeds)
 """
+import re
+import json
 import hashlib
 import importlib
 import os
@@ -110,10 +112,67 @@ def nontrivial_hashes(kind, pairs):
     return out
 
 
+STRESS_PROPS = ('C01', 'C02', 'C03', 'C04', 'C05', 'C07', 'C10', 'C11', 'C12', 'C13', 'C14')
+
+
+def run_stress_cmd(args, timeout):
+    """-> (report dict or None, raw output)"""
+    import subprocess
+    hbin = os.path.join(os.path.dirname(os.path.dirname(os.path.abspath(__file__))), 'harness', 'target', 'release', 'harness')
+    try:
+        p = subprocess.run([hbin, 'stress'] + args, stdout=subprocess.PIPE, stderr=subprocess.STDOUT, text=True, timeout=timeout)
+        out = p.stdout
+    except subprocess.TimeoutExpired as e:
+        return None, 'stress run timed out: ' + str(e)[-200:]
+    for l in reversed(out.strip().split('\n')):
+        if l.startswith('{'):
+            try:
+                return json.loads(l), out
+            except Exception:
+                pass
+    return None, out
+
+
+def stress_stage(pid, tier, seed):
+    """free-running threads on the real containers (harness/src/stress.rs): exact checks only; supports the search for a
+    failing input of changes that need true parallelism. History of a finding = the command line (rerun reproduces it
+    with high probability, not deterministically)."""
+    import concurrent.futures as cf
+    import hashlib
+    kinds = ['pool'] if pid == 'C14' else ['hashmap', 'lru', 'pool']
+    millis = 1500 if tier == 'quick' else 8000
+    reps = 2 if tier == 'quick' else 4
+    jobs = []
+    for k in kinds:
+        for r in range(reps):
+            sd = int(hashlib.sha256(f'{seed}/{pid}/stress/{k}/{r}'.encode()).hexdigest()[:8], 16)
+            jobs.append(['--kind', k, '--threads', '6', '--millis', str(millis), '--seed', str(sd), '--keys', str(2 + r), '--stop-on', pid])
+    fails, runs = [], []
+    with cf.ThreadPoolExecutor(max_workers=6) as ex:
+        for args, (rep, out) in zip(jobs, ex.map(lambda a: run_stress_cmd(a, 40 + millis // 1000 * 3), jobs)):
+            line = 'stress ' + ' '.join(args)
+            if rep is None:
+                msg = 'the stress run ended without a report (abort, crash or hang of the process): ' + out.strip()[-300:]
+                fails.append(dict(props=['C13', 'C03', pid], msg=msg, history=[line], no_min=True, stress=True))
+                runs.append(dict(cmd=line, ops=None, violations=1))
+                continue
+            runs.append(dict(cmd=line, ops=rep['ops'], violations=len(rep['violations'])))
+            for v in rep['violations']:
+                tags = v.split(':', 1)[0].split('/')
+                props = [x for x in tags if re.fullmatch(r'C\d\d', x)] or ['C13']
+                fails.append(dict(props=props, msg=v, history=[line], no_min=True, stress=True))
+    return fails, runs
+
+
 def extra_stage(pid, tier, seed, work):
-    """scheduled (multi-threaded) correspondence, if built"""
+    """scheduled (multi-threaded) correspondence, if built; plus the free-running stress runs"""
     try:
         sched = importlib.import_module('schedmode')
     except Exception:
         return dict(ok=True, fails=[], info={})
-    return sched.run(pid, tier, seed, work)
+    out = sched.run(pid, tier, seed, work)
+    if pid in STRESS_PROPS and os.path.exists(sched.HBIN):
+        fails, runs = stress_stage(pid, tier, seed)
+        out['fails'] = out.get('fails', []) + fails
+        out.setdefault('info', {})['stress'] = runs
+    return out
